@@ -39,6 +39,8 @@ type BOptions struct {
 	Cores     int // --localcores (default 4)
 	MemGB     int // --localmem (default 8)
 	AutoRetry int
+	// RetryWait: --retry-wait in seconds (with AutoRetry; default 0)
+	RetryWait int
 	// JobMode: "" = local; "fake_remote" = the cluster code path with the
 	// repository's test template (jobs are started through a job script)
 	JobMode string
@@ -237,6 +239,16 @@ func (b *BRun) WaitAt(key string, d time.Duration) bool {
 	return false
 }
 
+// Output returns what mrp has printed so far.
+func (b *BRun) Output() string { return b.out.String() }
+
+// KillAll kills mrp and everything in its process group.
+func (b *BRun) KillAll() {
+	if b.Cmd.Process != nil {
+		syscall.Kill(-b.Cmd.Process.Pid, syscall.SIGKILL)
+	}
+}
+
 // Kill sends a signal to mrp.
 func (b *BRun) Kill(sig syscall.Signal) {
 	if b.Cmd.Process != nil {
@@ -430,7 +442,7 @@ func StartB(p *progen.Program, opts *BOptions) (*BRun, error) {
 	// jobmanagers/retry.json makes two automatic retries the default
 	args = append(args, "--autoretry="+strconv.Itoa(opts.AutoRetry))
 	if opts.AutoRetry > 0 {
-		args = append(args, "--retry-wait=0")
+		args = append(args, "--retry-wait="+strconv.Itoa(opts.RetryWait))
 	}
 	args = append(args, opts.ExtraArgs...)
 	mrpPath := filepath.Join(root, inst, "bin", "mrp")
